@@ -17,7 +17,7 @@ def is_sn(e):
 
 def expected_offset(e):
     """0 if e == available_changes_max()+1 ; -1 if e == available_changes_max() ; None otherwise"""
-    e = E.strip_casts(e)
+    e = E.arith_norm(E.strip_casts(e))
     if E.is_call(e, "RtpsWriterProxy::available_changes_max"):
         return -1
     if e[0] == "bin" and e[1] == "Add":
@@ -190,7 +190,7 @@ def acknack_handler(body, add):
             add("R01d", "%s only on a fresh ACKNACK" % name.split("::")[-1], fc.only_through([bb], g),
                 "reachable without count > last_received_acknack_count (a duplicated/reordered ACKNACK would be processed)", t.line)
             if argcheck is not None:
-                a = fc.arg(t, 1)
+                a = E.arith_norm(E.strip_casts(fc.arg(t, 1)))
                 add("R01d", "%s argument" % name.split("::")[-1], argcheck(a), "unexpected argument %s" % fc.show(a), t.line)
         for (gb, gt) in g:
             add("R01d", "fresh ACKNACK always reaches %s" % name.split("::")[-1], posts(fc, gt, [bb for bb, _ in cs]),
